@@ -151,6 +151,39 @@ fn stale_key_family(out: &mut Vec<Case>, rng: &mut Rng) {
     }
 }
 
+/// small rings filled EXACTLY (capacity 1, 2, 4 receives on idle sockets, nothing completes): every push must answer
+/// `pending`; the sockets then become ready one by one and every op completes with its own data. An op that `push` hands
+/// back with an error belongs to the caller again — the kernel must not write into its buffer
+/// (`C01:returned-op-still-in-kernel`)
+fn fill_family(out: &mut Vec<Case>, rng: &mut Rng) {
+    for cap in [1u32, 2, 4] {
+        for polled in [false, true] {
+            for extra in [0usize, 1] {
+                let n = cap as usize + extra;
+                let mut l = vec![format!("cfg iour {cap}")];
+                let mut ops = vec![];
+                for i in 0..n {
+                    l.push(format!("push rd {}", i % 4));
+                    ops.push(("rd", false));
+                    if polled && i + 1 == cap as usize {
+                        l.push("poll".into());
+                    }
+                }
+                for sl in 0..n.min(4) {
+                    let k = (0..n).filter(|i| i % 4 == sl).count();
+                    l.push(format!("ready {sl} {k}"));
+                }
+                l.push("poll".into());
+                for i in 0..n {
+                    l.push(format!("pop {i}"));
+                }
+                epilogue(rng, &mut l, &ops, true, false);
+                out.push(case(format!("fill/{cap}/{extra}/{polled}"), l));
+            }
+        }
+    }
+}
+
 /// submission-queue overflow: more pushes than SQ entries before the first submit
 fn overflow_family(out: &mut Vec<Case>, rng: &mut Rng) {
     for cap in [1u32, 2, 4] {
@@ -180,6 +213,7 @@ fn generate(tier: &str, rng: &mut Rng) -> Vec<Case> {
     let thorough = tier == "thorough";
     f13_family(&mut out);
     overflow_family(&mut out, rng);
+    fill_family(&mut out, rng);
     stale_key_family(&mut out, rng);
     if thorough {
         single_op_family(&mut out, rng, &CAPS);
